@@ -2,6 +2,7 @@
 
 use crate::corpus;
 use crate::fw::*;
+use crate::hval::HVal;
 use crate::pack::{self, Res};
 use crate::qrun::{self, Modules};
 use proptest::prelude::*;
@@ -52,7 +53,7 @@ fn bind() -> impl Strategy<Value = B> {
 }
 
 pub fn binds() -> impl Strategy<Value = Vec<B>> {
-    prop::collection::vec(bind(), 2..9)
+    prop::collection::vec(bind(), 1..9)
 }
 
 const TNAMES: [&str; 4] = ["", "P", "Q", "Str2"];
@@ -247,6 +248,124 @@ fn compare(reference: &(String, Res), others: &[(String, Res)], what: &str) -> R
     Ok(())
 }
 
+// ---------------------------------------------------------------------------------------------
+// the real command line: `quiv run -e`, `quiv compile -o f.qx` + `quiv run f.qx`, and
+// `quiv compile | quiv run` as subprocesses (binary built by check.sh from /repo's tree)
+
+pub fn quiv_path() -> Option<String> {
+    // QV_QUIV: another build of the command line (used when a scratch copy of /repo is checked)
+    let p = std::env::var("QV_QUIV").unwrap_or_else(|_| format!("{VERIF_ROOT}/harness/target/cli/debug/quiv"));
+    if std::env::var("QV_NO_CLI").is_err() && std::path::Path::new(&p).is_file() { Some(p) } else { None }
+}
+
+/// The text `quiv run` prints for a value (quiver_core::format::format_value), from the host
+/// value; None when the value contains something whose text is configuration-specific beyond a
+/// function index, or one of the specially rendered tuples.
+pub fn cli_text(v: &HVal) -> Option<String> {
+    Some(match v {
+        HVal::Int(i) => i.to_string(),
+        HVal::Bin(b) => {
+            let hexs = |b: &[u8]| b.iter().map(|x| format!("{x:02x}")).collect::<String>();
+            if b.len() <= 8 { format!("0x{}", hexs(b)) } else { format!("0x{}… ({} bytes)", hexs(&b[..8]), b.len()) }
+        }
+        HVal::Fn(_, _) => "#_".to_string(),
+        HVal::Tuple(name, fields) => {
+            if matches!(name.as_deref(), Some("Str" | "Rational" | "Surd")) {
+                return None;
+            }
+            let fs = fields.iter().map(|(l, f)| cli_text(f).map(|t| match l { Some(l) => format!("{l}: {t}"), None => t })).collect::<Option<Vec<_>>>()?;
+            match name {
+                Some(n) if fs.is_empty() => n.clone(),
+                Some(n) => format!("{n}[{}]", fs.join(", ")),
+                None => format!("[{}]", fs.join(", ")),
+            }
+        }
+        _ => return None,
+    })
+}
+
+/// function indices differ between packagings: `#12` -> `#_`
+fn strip_fn_indices(s: &str) -> String {
+    let mut out = String::new();
+    let mut chars = s.chars().peekable();
+    while let Some(c) = chars.next() {
+        out.push(c);
+        if c == '#' && chars.peek().is_some_and(|d| d.is_ascii_digit()) {
+            while chars.peek().is_some_and(|d| d.is_ascii_digit()) {
+                chars.next();
+            }
+            out.push('_');
+        }
+    }
+    out
+}
+
+/// Run one `quiv` invocation with a 60 s limit. Ok(None) = the limit was hit (inconclusive).
+fn quiv(bin: &str, args: &[&str], stdin: Option<&[u8]>) -> Result<Option<(bool, String, String)>, String> {
+    use std::io::Write;
+    use std::process::{Command, Stdio};
+    let mut child = Command::new(bin)
+        .args(args)
+        .stdin(if stdin.is_some() { Stdio::piped() } else { Stdio::null() })
+        .stdout(Stdio::piped())
+        .stderr(Stdio::piped())
+        .spawn()
+        .map_err(|e| format!("cannot start {bin}: {e}"))?;
+    if let (Some(data), Some(mut pipe)) = (stdin, child.stdin.take()) {
+        let _ = pipe.write_all(data);
+    }
+    let t0 = std::time::Instant::now();
+    loop {
+        match child.try_wait() {
+            Ok(Some(_)) => break,
+            Ok(None) => {
+                if t0.elapsed().as_secs() > 60 {
+                    let _ = child.kill();
+                    let _ = child.wait();
+                    return Ok(None);
+                }
+                std::thread::sleep(std::time::Duration::from_millis(2));
+            }
+            Err(e) => return Err(format!("wait: {e}")),
+        }
+    }
+    let out = child.wait_with_output().map_err(|e| format!("output: {e}"))?;
+    Ok(Some((out.status.success(), String::from_utf8_lossy(&out.stdout).trim_end().to_string(), String::from_utf8_lossy(&out.stderr).trim_end().to_string())))
+}
+
+/// The three command-line routes for a program that evaluates to a nilary function; each gives
+/// (route name, printed result) or Broken.
+pub fn cli_routes(bin: &str, source: &str, tag: u64) -> Result<Option<Vec<(String, Result<String, String>)>>, String> {
+    let dir = if std::path::Path::new("/dev/shm").is_dir() { "/dev/shm".to_string() } else { format!("{VERIF_ROOT}/harness/target") };
+    // unique per invocation: the same small program turns up in several shards at once
+    static SERIAL: std::sync::atomic::AtomicU64 = std::sync::atomic::AtomicU64::new(0);
+    let serial = SERIAL.fetch_add(1, std::sync::atomic::Ordering::Relaxed);
+    let file = format!("{dir}/qv-cli-{}-{tag:016x}-{serial}.qx", std::process::id());
+    let mut routes = Vec::new();
+    let shape = |r: (bool, String, String)| if r.0 { Ok(strip_fn_indices(&r.1)) } else { Err(format!("exit status != 0; stderr: {}", truncate(&r.2, 300))) };
+    let Some(direct) = quiv(bin, &["run", "-e", source], None)? else { return Ok(None) };
+    routes.push(("quiv run -e".to_string(), shape(direct)));
+    let Some(comp) = quiv(bin, &["compile", "-e", source, "-o", &file], None)? else { return Ok(None) };
+    if comp.0 {
+        let Some(ran) = quiv(bin, &["run", &file], None)? else {
+            let _ = std::fs::remove_file(&file);
+            return Ok(None);
+        };
+        routes.push(("quiv compile -o f.qx; quiv run f.qx".to_string(), shape(ran)));
+    } else {
+        routes.push(("quiv compile -o f.qx".to_string(), Err(format!("exit status != 0; stderr: {}", truncate(&comp.2, 300)))));
+    }
+    let _ = std::fs::remove_file(&file);
+    let Some(piped) = quiv(bin, &["compile", "-e", source], None)? else { return Ok(None) };
+    if piped.0 {
+        let Some(ran) = quiv(bin, &["run"], Some(piped.1.as_bytes()))? else { return Ok(None) };
+        routes.push(("quiv compile | quiv run".to_string(), shape(ran)));
+    } else {
+        routes.push(("quiv compile".to_string(), Err(format!("exit status != 0; stderr: {}", truncate(&piped.2, 300)))));
+    }
+    Ok(Some(routes))
+}
+
 pub fn plan(case: &Case, sh: &Shared) -> Plan {
     match case {
         Case::Corpus { idx, before } => Plan::Corpus { source: sh.corpus[(*idx as usize * sh.corpus.len()) >> 16].clone(), before: pick_before(sh, before) },
@@ -439,6 +558,41 @@ pub fn exec(plan: &Plan, reg: &qrun::Registry) -> Result<Facts, (String, String)
             f.runs = 1 + others.len() as u32;
             compare(&ref_res, &others, &what)?;
             f.classes.extend(classes.iter().copied());
+            // the real command line, for one case in four (subprocesses; real threads)
+            if let Some(bin) = quiv_path()
+                && let Res::Val(v) = &ref_res.1
+                && hash64(as_program) % 4 == 0
+            {
+                match cli_routes(&bin, as_program, hash64(as_program)) {
+                    Err(e) => return Err(("harness".into(), e)),
+                    Ok(None) => f.classes.push("cli:time-limit-hit(inconclusive)"),
+                    Ok(Some(routes)) => {
+                        f.runs += routes.len() as u32;
+                        let expected = cli_text(v);
+                        for (name, got) in &routes {
+                            match got {
+                                Err(m) => return Err((format!("cli:{}:failed", name.split(' ').nth(1).unwrap_or("run")), format!("{what}\n`{name}` failed although the program runs in process: {m}"))),
+                                Ok(text) => {
+                                    if let Some(e) = &expected
+                                        && e != text
+                                    {
+                                        return Err(("cli:differs".into(), format!("{what}\n`{name}` prints {}\nthe closure applied in source gives {e}", truncate(text, 600))));
+                                    }
+                                    if let Ok(first) = &routes[0].1
+                                        && first != text
+                                    {
+                                        return Err(("cli:routes-differ".into(), format!("{what}\n`{name}` prints {}\n`{}` prints {}", truncate(text, 600), routes[0].0, truncate(first, 600))));
+                                    }
+                                }
+                            }
+                        }
+                        f.classes.push("cli:real-quiv-subprocess-routes");
+                        if expected.is_some() {
+                            f.classes.push("cli:output-compared-with-in-process-value");
+                        }
+                    }
+                }
+            }
             f.text = as_program.clone();
         }
         Plan::Import { modules, main_import, main_splice, classes } => {
